@@ -248,7 +248,11 @@ def new (P : Nat) (length : Nat) (value : α) : Res (SWMA α) :=
 def peek (s : SWMA α) : α := s.numerator * s.invert_sum
 
 def next (s : SWMA α) (value : α) : Except Panic (α × SWMA α) :=
-  if s.right_window.isEmpty then .ok (value, s)
+  if s.right_window.isEmpty then
+    -- length 1 (after the `fix:` commit the state follows the value that is returned)
+    match s.left_window.push value with
+    | .error e => .error e
+    | .ok (_, lw) => .ok (value, { s with left_window := lw, left_total := -value, numerator := value })
   else match s.right_window.push value with
     | .error e => .error e
     | .ok (rprev, rw) =>
